@@ -5,6 +5,28 @@ from props import rdlib as L
 
 PROP = "C16"
 TRUSTED = [
+    "harness/translate_rd.py (RDPy translator; runtime primitives Model/RDPy.lean) RE-TRANSLATES from /repo's relativedelta.py "
+    "into Generated/RDOps.lean on every run: __add__ (three Lean functions: date/datetime, relativedelta and timedelta "
+    "operand - isinstance on the declared operand type is decided statically), __radd__, __rsub__, __neg__, __abs__, __sub__, "
+    "__mul__ (integer scalar; float() / int() are the identity on the integer domain), __bool__, __eq__, __hash__ (the tuple), "
+    "and both branches of __init__ (keyword constructor incl. the unrolled ydayidx scan and the weekday coercion; "
+    "relativedelta(dt1, dt2) incl. the while loop as a fuel-bounded recursion); _fix / _set_months as before "
+    "(translate.py). Anything outside the fragment aborts with a named construct (broken tie). Proofs/RDGenEq.lean proves "
+    "Gen.f = model f for: addDt = applyTo, raddDt, rsubDt, neg, abs, addRd, subRd, addTd, mulInt, bool, eq, hashKey, "
+    "initDiff = diffN (out of fuel = NotImplemented), and initKw on the arguments the operators pass (initKw_plain); the "
+    "`_gen` theorems of the Audit file restate the property theorems over the generated definitions",
+    "STILL HAND-MODELLED, tied by sampling only: (a) the named primitives of Model/RDPy.lean = CPython behaviour "
+    "(calendar.monthrange / isleap, date/datetime.replace incl. its C-int and range errors, datetime.timedelta(...), "
+    "x + timedelta, x.weekday(), isinstance(x, datetime), datetime.fromordinal(d.toordinal()), <, > and - between "
+    "date/datetime objects incl. the same-object / UTC rule, timedelta.days/.seconds/.microseconds, weekdays[i], "
+    "attributes of a weekday object, `a or b`, truthiness of Optional values), exercised by rdgen.* on every run; "
+    "(b) the model `mk` vs the translated constructor on yearday / nlyearday / integer weekday arguments (no equality "
+    "theorem: both are compared with the implementation by rd.mk and rdgen.mk, and C03's yearday theorems are about `mk`); "
+    "(c) __div__, normalized(), __repr__, the `weeks` property, float-valued fields (not translated); "
+    "(d) the grouping of the hashed tuple into (weekday, ints, optionals) by the translator of hash((...))",
+    "the translator itself is validated on every run: every correspondence request to a hand-model op (rd.add, rd.rsub, "
+    "rd.mk, rd.expr, rd.bool, rd.hash, rd.eq, rd.diff, rd.diffn, rd.diffo) is repeated against the generated definition "
+    "(rdgen.*) and compared with the implementation",
     "Generated/RDKernels.lean (Gen.fix, Gen.setMonths) is re-translated from relativedelta._fix/_set_months on every run; "
     "the normalisation theorems are stated about that translation; the translator is validated on every run by rd.fix / "
     "rd.setmonths on raw object states (attributes set directly, then _fix() called)",
@@ -230,9 +252,11 @@ def correspondence(ctx):
         x = L.g_temporal(rng)
         reqs.append("rd.add %s %s" % (L.rd_wire(a), L.t_wire(x))); exp.append(L.run(lambda: x + a, L.t_show))
         ctx.count("corr_add")
+    reqs, exp = L.with_generated(reqs, exp)
+    ctx.count("corr_generated_requests", sum(1 for q in reqs if q.startswith("rdgen.")))
     got = ctx.driver(reqs)
     for q, e, g in zip(reqs, exp, got):
-        if q.startswith("rd.eq "):
+        if q.startswith("rd.eq ") or q.startswith("rdgen.eq "):
             # model key-equality must imply equal hashes on the implementation (the converse can fail by collision)
             ga, ea = g.split(), e.split()
             if len(ga) != 3 or ga[1] != ea[1] or (ga[2] == "1" and ea[2] != "1"):
@@ -286,6 +310,9 @@ def float_twin(d):
 def check_value(ctx, d, origin, case):
     """laws of one value"""
     from dateutil.relativedelta import relativedelta
+    if not L.weekday_ok(d.weekday):
+        ctx.violation("after %s the weekday attribute is %r, not a weekday object" % (origin, d.weekday), case)
+        return
     if not bounds_ok(d):
         ctx.violation("relative fields not normalised after %s: %r" % (origin, d), case)
     if not has_time_ok(d):
